@@ -13,7 +13,7 @@ CLAIM = dict(cat="proof", design="§3 C02",
         "estimators_exact (every visited cell grows by w sigma L, x excess energy for heating; other cells unchanged), stops_iff_reached, fuel_suffices (nx+ny+nz+1 iterations), exit_is_geometric / first_exit "
         "(the out-of-range axes are exactly the planes the straight line reaches first, final position on them, returned code = table entry). Tie: the binary64 instance of the SAME definitions is compared bit for "
         "bit with the real interact (exit code, final position, remaining depth, every touched cell) on packets generated at the proof's case splits (faces/edges/corners for all 27 entry classes, 0-2 zero direction "
-        "components, targets at cell-boundary partial sums, zero-density cells).",
+        "components, targets at cell-boundary partial sums, zero-density cells). The property oracle also checks cell membership: every credited cell is crossed by the straight line for the credited length (slab intersection).",
    note="Trusted: Coq kernel + standard real-number axioms; ExtrOCamlFloats extraction and the OCaml driver (correspondence only). Partial: exit geometry needs the premise that a coordinate not fixed by the entry class "
         "starts strictly below the block's upper plane (half-open block; C02_exit_upper_boundary_refuted shows the closed statement is false for the code: a start ON the upper plane is handed to the neighbour with "
         "nothing credited - benign in the full program, noted in DESIGN.md); binary64 effects one ulp below a wall are documented, not proved absent.",
